@@ -34,15 +34,42 @@ def rooted_trees(n):
                 yield [(par[v], v) for v in others]
 
 
-def observe(edges):
+NAME_SCHEMES = ("plain", "case_twins", "prefixes", "spaces", "config", "case_twins_config", "numeric_strings")
+
+
+def part_names(scheme, n):
+    if scheme in ("case_twins", "case_twins_config"):     # 'a', 'A', 'b', 'B', ... distinct, equal up to letter case
+        return [("abcdefgh"[k // 2]).upper() if k % 2 else "abcdefgh"[k // 2] for k in range(n)]
+    if scheme == "prefixes":                               # every name a prefix of the next
+        return ["n" + "1" * (k + 1) for k in range(n)]
+    if scheme == "spaces":                                 # inner whitespace and punctuation
+        return ["body part %d (left/right)" % k for k in range(n)]
+    if scheme == "numeric_strings":                        # names that look like OTHER nodes' indices
+        return [str((k + 1) % n) for k in range(n)]
+    return ["n%d" % k for k in range(n)]
+
+
+def observe(edges, scheme=None):
     from sleap_nn.inference.paf_grouping import EdgeType, PAFScorer, toposort_edges
 
-    names = ["n%d" % k for k in range(max(max(e) for e in edges) + 1)]
-    rec = dict(edges=[list(e) for e in edges], ord=[], ord2=[], raised="")
+    nn = max(max(e) for e in edges) + 1
+    # "however ... the skeleton was written down": the part names are distinct strings of several styles
+    scheme = NAME_SCHEMES[(sum((k + 1) * (7 * a + b) for k, (a, b) in enumerate(edges)) + nn) % len(NAME_SCHEMES)] if scheme is None else scheme
+    names = part_names(scheme, nn)
+    rec = dict(edges=[list(e) for e in edges], ord=[], ord2=[], raised="", names=scheme)
     try:
         rec["ord"] = [int(x) for x in toposort_edges([EdgeType(s, d) for s, d in edges])]
-        sc = PAFScorer(part_names=names, edges=[(names[s], names[d]) for s, d in edges], pafs_stride=2)
+        named = [(names[s], names[d]) for s, d in edges]
+        if scheme in ("config", "case_twins_config"):
+            from omegaconf import OmegaConf
+            conf = OmegaConf.create({"confmaps": {"part_names": names, "output_stride": 2},
+                                     "pafs": {"edges": [list(e) for e in named], "output_stride": 2}})
+            sc = PAFScorer.from_config(conf)
+        else:
+            sc = PAFScorer(part_names=names, edges=named, pafs_stride=2)
         rec["ord2"] = [int(x) for x in sc.sorted_edge_inds]
+        if [tuple(int(x) for x in e) for e in sc.edge_inds] != [tuple(e) for e in edges]:
+            raise AssertionError("PAFScorer.edge_inds %s are not the skeleton's edges %s (names %s)" % (list(sc.edge_inds), edges, names))
     except Exception as e:  # totality is part of the property
         rec["raised"] = "%s: %s" % (type(e).__name__, e)
     return rec
@@ -93,12 +120,15 @@ def run(tier, seed):
         cases.append(dict(id=len(cases), edges=rec["edges"], ord=rec["ord"], ord2=rec["ord2"], raised=rec["raised"], from_repo_tests=True))
         n_repo += 1
     res.coverage["calls_recorded_from_repo_tests"] = n_repo
+    for c in cases:
+        if "names" in c:
+            res.clause("part_names_" + c["names"])
     j = judge("Judge_C17", [{k: v for k, v in c.items() if k != "from_repo_tests"} for c in cases])
     res.add_judge("Judge_C17", j, "trees 2..%d exhaustive (%d), %d..%d nodes sampled" % (max_full, n_exh, max_full + 1, max_full + 2))
     byid = {c["id"]: c for c in cases}
     for cid, clause in j["rejected"]:
         c = byid[int(cid)]
-        res.violation(dict(where="toposort_edges", clause=clause), clause, c, "edges=%s ord=%s %s" % (c["edges"], c["ord"], c["raised"]))
+        res.violation(dict(where="toposort_edges", clause=clause), clause, c, "edges=%s names=%s ord=%s ord2=%s %s" % (c["edges"], c.get("names"), c["ord"], c["ord2"], c["raised"]))
     if j["rejected_n"] and not j["rejected"]:
         raise TLCError("rejections without ids")
     # exhaustiveness of the fed space decided by TLC (2..4 nodes; larger n by count below)
@@ -122,13 +152,15 @@ def run(tier, seed):
                         rule="all listings of all rooted labelled trees on 2..%d nodes (count checked = %d; set equality with the spec's case space checked by TLC for 2..4), plus seeded random trees on %d and %d nodes; non-trivial = at least 2 edges (order can matter)" % (max_full, expect, max_full + 1, max_full + 2))
     for c in (cases[5], cases[n_exh - 1], cases[-1]):
         res.sample(dict(edges=c["edges"], sorted_edge_inds=c["ord"]))
-    res.assumptions += ["networkx adjacency order is irrelevant to the property (spec allows any sibling order)"]
+    res.assumptions += ["networkx adjacency order is irrelevant to the property (spec allows any sibling order)",
+                        "part names are distinct strings in 7 styles (plain, equal up to letter case, prefixes of each other, with spaces/punctuation, "
+                        "numeric strings naming other nodes' indices; constructor and from_config); PAFScorer.edge_inds must be the skeleton's edges"]
     return res
 
 
 def replay(rp, seed):
     res = Result("C17")
-    c = observe([tuple(e) for e in rp["case"]["edges"]])
+    c = observe([tuple(e) for e in rp["case"]["edges"]], rp["case"].get("names"))
     c["id"] = 0
     j = judge("Judge_C17", [c], shards=1)
     res.add_judge("Judge_C17", j)
